@@ -4,7 +4,7 @@ import os
 import re
 from .. import core
 
-DEV = dict(D_InPlaceAppend=False, D_LazyFallbackInit=False, D_EarlyPut=False)
+DEV = dict(D_InPlaceAppend=False, D_LazyFallbackInit=False, D_EarlyPut=False, D_PutBeforeHook=False)
 
 
 def scfg(reqs, kinds, shape, emit=True, invs=("NoInterference", "NoSharedCtx", "NoModelRace"), **dev):
@@ -83,10 +83,13 @@ def run(chk):
     out = os.path.join(core.scratch(), "serve.ndjson")
     shapes = [(3, 4, 0, 0), (3, 3, 1, 1), (0, 0, 1, 2), (2, 2, 0, 0)] + ([(3, 4, 3, 4), (1, 1, 1, 1), (0, 0, 0, 0), (5, 8, 2, 2)] if thorough else [])
     pairs = [("a", "b"), ("a", "a"), ("b", "b"), ("a", "nf")] + ([("nf", "nf"), ("b", "nf")] if thorough else [])
+    panics = [("p", "a"), ("p", "p")] if thorough else [("p", "a")]
     with open(out, "w") as fo:
         for sh in shapes:
             for kinds in (pairs if thorough else pairs[:2] + pairs[3:]):
                 schedules(chk, ["r1", "r2"], kinds, sh, fo)
+        for kinds in panics:      # a panicking request with an OnPanic hook next to another request
+            schedules(chk, ["r1", "r2"], kinds, (1, 1, 0, 0), fo)
         triples = [("a", "b", "a"), ("a", "b", "nf")] if thorough else [("a", "b", "a")]
         for kinds in triples:
             schedules(chk, ["r1", "r2", "r3"], kinds, (3, 4, 0, 0), fo, sample_every=1 if thorough else 4)
@@ -97,7 +100,8 @@ def run(chk):
     for sw, shape, kinds, inv in [("D_InPlaceAppend", (3, 4, 0, 0), ("a", "b"), "NoInterference"),
                                   ("D_InPlaceAppend", (0, 0, 1, 2), ("a", "a"), "NoModelRace"),
                                   ("D_LazyFallbackInit", (0, 0, 0, 0), ("nf", "nf"), "NoModelRace"),
-                                  ("D_EarlyPut", (1, 1, 0, 0), ("a", "b"), "NoSharedCtx")][: 4 if thorough else 2]:
+                                  ("D_EarlyPut", (1, 1, 0, 0), ("a", "b"), "NoSharedCtx"),
+                                  ("D_PutBeforeHook", (1, 1, 0, 0), ("p", "a"), "NoSharedCtx")][: 5 if thorough else 2]:
         r = core.run_tlc("MC_Serve", cfg_text=scfg(["r1", "r2"], kinds, shape, emit=False, invs=(inv,), **{sw: True}), timeout=300)
         chk.expect_fails(r, "MC_Serve[%s %s]" % (sw, shape), inv)
     stress(chk, 40 if thorough else 8)
